@@ -52,11 +52,11 @@ int em_has_cache(const struct em *m) { return m->cache >= 0; }
 
 static void incr_count(struct em *m, const struct em_ev *e)
 {
-	if (!e->internal) {
-		m->count++;
-		if (m->count > m->count_max) m->count_max = m->count;
-		if (m->count > m->count_max_hi) m->count_max_hi = m->count;
-	}
+	/* pinned: the running maximum is sampled at every list insertion, also at
+	 * insertions of internal events (which do not change the count) */
+	if (!e->internal) m->count++;
+	if (m->count > m->count_max) m->count_max = m->count;
+	if (m->count > m->count_max_hi) m->count_max_hi = m->count;
 }
 static void decr_count(struct em *m, const struct em_ev *e) { if (!e->internal) m->count--; }
 static void incr_active(struct em *m) { m->nactive++; if (m->nactive > m->nactive_max) m->nactive_max = m->nactive; }
@@ -487,7 +487,7 @@ static int group_peak(const struct em *m, const int *ids, const int *perm, int n
 	int c = start, peak = 0;          /* only values reached by an increment count */
 	for (int k = 0; k < n; k++) {
 		const struct em_ev *e = &m->ev[ids[perm[k]]];
-		if (e->internal) continue;
+		if (e->internal) { if (!e->active && c > peak) peak = c; continue; }   /* sampled, not counted */
 		if (!(e->active || e->later)) { c -= e->timeout + e->inserted; c += 1; if (c > peak) peak = c; }
 		else c -= 1;                       /* only its timeout membership goes away */
 	}
